@@ -174,8 +174,17 @@ def generate(rng, index, tier):
             else:
                 ops[pos:pos] = pat
         threads.append({'tid': tid, 'ops': ops})
-    if rng.chance(0.1):      # two simulated threads sharing a tid cannot happen; two *pids* can: nothing to do here
-        pass
+    if nthreads >= 2 and rng.chance(0.1):
+        # thread 0, inside an open call, announces a LIVE peer as a new thread of its own process (exec-copy word set or not);
+        # the peer logs the END of that very call without ever having started it
+        cat_ = worlds.catalog()
+        code = rng.pick([cat_['ids']['BSC_read'], cat_['ids']['BSC_getpid'], cat_['ids']['MACH_vmfault'], cat_['undecoded'][0][0]])
+        peer = rng.randrange(1, nthreads)
+        nt = worlds.op_newthread(rng, tids[peer], 1001, rng.ident())
+        nt['ops'][0]['a'][2] = rng.pick([0, 1, 1, 7])
+        threads[0]['ops'].insert(rng.randrange(len(threads[0]['ops']) + 1),
+                                 {'k': 'seq', 'ops': [{'k': 'raw', 'id': code, 'q': 1, 'a': [1, 2, 3, 4]}, nt, {'k': 'raw', 'id': code, 'q': 2, 'a': [0, 0, 0, 0]}]})
+        threads[peer]['ops'].insert(rng.randrange(len(threads[peer]['ops']) + 1), {'k': 'raw', 'id': code, 'q': 2, 'a': [0, 5, 0, 0]})
     ids = worlds.catalog()['ids']
     per = kernel.expand_threads(threads, ids)
     total = sum(len(p) for p in per)
